@@ -139,6 +139,55 @@ def _split_top_commas(text):
     return [p for p in parts if p.strip()]
 
 
+def _enclosing_open(msk, pos):
+    depth = 0
+    j = pos
+    while j >= 0:
+        c = msk[j]
+        if c == '}':
+            depth += 1
+        elif c == '{':
+            if depth == 0:
+                return j
+            depth -= 1
+        j -= 1
+    return -1
+
+
+def rewrite_continue(text, log):
+    """D14 (Verus has no `continue` in for-loops): every `continue;` that ends an `if` block which is a
+    direct statement of a loop body is removed and the rest of that loop body becomes the `else` branch."""
+    while True:
+        msk = lex.mask(text)
+        m = re.search(r'\bcontinue\s*;', msk)
+        if not m:
+            return text
+        bo = _enclosing_open(msk, m.start())
+        if bo < 0:
+            raise ExtractError('continue outside a block')
+        bc = lex.match_bracket(msk, bo)
+        # `continue;` must be the last statement of the if block
+        if msk[m.end():bc].strip():
+            raise ExtractError('D14: continue is not the last statement of its block')
+        # the block must belong to an `if` without else
+        hdr_start = max(msk.rfind(';', 0, bo), msk.rfind('{', 0, bo), msk.rfind('}', 0, bo)) + 1
+        if not re.match(r'\s*if\b', msk[hdr_start:bo]):
+            raise ExtractError('D14: continue not inside a plain `if` block')
+        if re.match(r'\s*else\b', msk[bc + 1:]):
+            raise ExtractError('D14: if-block with else')
+        lo = _enclosing_open(msk, hdr_start - 1)
+        if lo < 0:
+            raise ExtractError('D14: no enclosing loop body')
+        lc = lex.match_bracket(msk, lo)
+        # the enclosing block must be a loop body
+        lh = max(msk.rfind(';', 0, lo), msk.rfind('{', 0, lo), msk.rfind('}', 0, lo)) + 1
+        if not re.match(r'\s*(for|while|loop)\b', msk[lh:lo]):
+            raise ExtractError('D14: continue not directly inside a loop body')
+        log.append(('D14', 'continue removed; rest of loop body moved into else branch', text.count('\n', 0, m.start())))
+        blank = ''.join(ch if ch == '\n' else ' ' for ch in text[m.start():m.end()])
+        text = text[:m.start()] + blank + text[m.end():bc + 1] + ' else {' + text[bc + 1:lc] + '} ' + text[lc:]
+
+
 def rewrite_format(text, nth, log):
     """D10: the nth `format!(..)` (only `{}` / `{name}` placeholders, no format specs) becomes
     `{ let mut _f = String::new(); _f.push_str("lit"); _f.push_str(VDisp::vdisp(&(X)).as_str()); ..; _f }`.
@@ -221,6 +270,10 @@ def rewrite_format(text, nth, log):
 
 def _apply_block(text, first_line, relpath, directives, tmpl_file, log, stub):
     """Return list of Line for the function text with insertions applied."""
+    # D14: `if C { ..; continue; } REST` directly inside a loop body  =>  `if C { .. } else { REST }`
+    for d in directives:
+        if d['kind'] == 'uncontinue':
+            text = rewrite_continue(text, log)
     # 0. D10: format!("..{a}..", a = X) => explicit concatenation of literal pieces and Display renderings
     for d in directives:
         if d['kind'] == 'fmt':
@@ -476,6 +529,8 @@ def assemble(unit_name, repo=None):
                         rx, tail = _parse_regex_directive(r2, c2)
                         p2, kv2 = _kv(tail.split())
                         cur = {'kind': c2, 'regex': rx, 'nth': int(kv2.get('nth', 1)), 'lines': []}
+                    elif c2 == 'uncontinue':
+                        cur = {'kind': 'uncontinue', 'lines': []}
                     elif c2 == 'bind_tail':
                         cur = {'kind': 'bind_tail', 'name': r2.split()[0] if r2.split() else '_ret', 'lines': []}
                     elif c2 == 'fmt':
